@@ -72,6 +72,8 @@ type owCase struct {
 	relatedNames                                     bool
 	t0, t1                                           int // time window written by buildFiles (0,0 = the whole period)
 	mixedWidths                                      bool
+	confluence                                       bool
+	rolling                                          bool // -final-states names the file the initial states come from
 }
 
 func contains(l []string, s string) bool {
@@ -233,6 +235,26 @@ func drawOwCase(w *simrt.Tape) *owCase {
 			c.links = append(c.links, l2)
 		}
 	}
+	if c.G > 1 && w.Choose(4) == 3 {
+		// a confluence: many links (3-35) from the nodes of one generation into one input series; the
+		// sum is accumulated in the order of the /LINKS rows
+		sg := w.Choose(c.G - 1)
+		dg := sg + 1 + w.Choose(c.G-1-sg)
+		dm := w.Choose(len(c.models))
+		if c.models[dm].destOK && len(c.models[dm].gens[dg]) > 0 {
+			dn, dv := w.Choose(len(c.models[dm].gens[dg])), w.Choose(len(c.models[dm].desc.Inputs))
+			n := []int{3 + w.Choose(6), 16 + w.Choose(20)}[w.Choose(2)]
+			for k := 0; k < n; k++ {
+				sm := w.Choose(len(c.models))
+				if len(c.models[sm].gens[sg]) == 0 {
+					continue
+				}
+				c.links = append(c.links, gLink{srcGen: sg, srcModel: sm, srcNode: w.Choose(len(c.models[sm].gens[sg])), srcVar: w.Choose(len(c.models[sm].desc.Outputs)),
+					destGen: dg, destModel: dm, destNode: dn, destVar: dv})
+			}
+			c.confluence = true
+		}
+	}
 	sort.SliceStable(c.links, func(i, j int) bool { return c.links[i].srcGen < c.links[j].srcGen })
 	// command line
 	if w.Bool(85) {
@@ -281,6 +303,12 @@ func drawOwCase(w *simrt.Tape) *owCase {
 	if c.out != "" && w.Bool(20) {
 		c.finalFile = "/sim/final.h5"
 		c.flags.FinalStates = c.finalFile
+	} else if c.out != "" && w.Choose(10) == 9 {
+		// a rolling hot-start file: the final states replace the initial states they were read from
+		// (a generation's rows are written only after that generation has been loaded and run)
+		c.finalFile = c.stateFile
+		c.flags.FinalStates = c.finalFile
+		c.rolling = true
 	}
 	if c.out != "" && w.Bool(25) {
 		c.preexisting = true
@@ -435,6 +463,11 @@ func engineOwSimExt(rc *RunCtx) *Outcome {
 		c.out = "/sim/out.h5"
 		c.finalFile = c.out
 		c.args = []string{c.in, c.out}
+	}
+	if c.rolling {
+		// (final states of externally written models are not written at all - known finding - so a
+		// states file that already holds the initial states would only blur that finding)
+		c.rolling, c.finalFile, c.flags.FinalStates = false, c.out, ""
 	}
 	ext := map[string]string{}
 	var pairs []string
@@ -711,6 +744,10 @@ func runOwCase(rc *RunCtx, c *owCase, ext map[string]string) *Outcome {
 	}
 	// nothing else was written
 	for f, want := range expect {
+		if c.rolling && f == c.finalFile {
+			// the states file is one of the input files: it legitimately holds other datasets
+			continue
+		}
 		ds, _, ok := hdf5.Snapshot(f)
 		if !ok {
 			any := false
@@ -739,6 +776,12 @@ func runOwCase(rc *RunCtx, c *owCase, ext map[string]string) *Outcome {
 	}
 	if len(c.links) > 0 {
 		o.probe("graph_with_links")
+	}
+	if c.confluence {
+		o.probe("confluence(3-35_links_into_one_input)")
+	}
+	if c.rolling {
+		o.probe("final_states_written_over_the_initial_states_file")
 	}
 	if c.preexisting {
 		o.probe("overwrite_existing_output")
